@@ -106,6 +106,10 @@ def modules():
         lambda: P([("g", G([("a", 1)])), ("o", O([("b", 2)])), ("h", G([("c", 3)]))]),
         lambda: P([("pixel-size", 2)]), lambda: P([("pixel-size", G([("a", 1)])), ("o", O([]))]),
         lambda: P([("l", [])]), lambda: P([("g", G([("a", [])]))]),
+        # objects that look like a quantity but are of no registered class (refused, every time)
+        one(QLike(5, "m")), one([QLike(1, "m"), QLike(2, "m")]),
+        lambda: P([("o", O([("x", 1)])), ("g", G([("^TABLE", QLike(5, "BYTES"))]))]),
+        lambda: P([("n", QLike("abc", "m"))]),
     ]
 
 
@@ -240,14 +244,54 @@ def make(kind, name):
 
 
 INTERFERE = -1     # "somebody else in the process uses other instances"
+LOADS_FOREIGN = -2  # parser: pvl.loads(text, parser=OURS, grammar=<another>, decoder=<another>) - a convenience
+#                     function must not reconfigure the instance it is handed
+SHARED_DUMP = -3    # encoder: dump a module object that lives as long as the encoder ...
+SHARED_EDIT = -4    # ... after the caller has edited one of its groups (and toggles the edit back next time)
 
 
 def alphabet(kind):
-    if kind in ("parser", "validate"):
+    if kind == "parser":
+        return [INTERFERE, LOADS_FOREIGN] + list(range(len(TEXTS)))
+    if kind == "validate":
         return [INTERFERE] + list(range(len(TEXTS)))
-    if kind in ("encoder", "translate"):
+    if kind == "encoder":
+        return [INTERFERE, SHARED_DUMP, SHARED_EDIT] + list(range(len(modules())))
+    if kind == "translate":
         return [INTERFERE] + list(range(len(modules())))
     return [INTERFERE] + list(range(len(DEC_CALLS)))
+
+
+_SHARED = __import__("weakref").WeakKeyDictionary()
+
+
+def shared_module(inst):
+    """one module object per encoder instance, kept between calls (the caller's own label)"""
+    if inst not in _SHARED:
+        P, G, O = impl.PVLModule, impl.PVLGroup, impl.PVLObject
+        _SHARED[inst] = P([("g", G([("a", 1), ("b", 2)])), ("o", O([("h", G([("c", 3)]))])), ("k", "v")])
+    return _SHARED[inst]
+
+
+def rebuilt(m):
+    """an equal module made of new objects"""
+    if isinstance(m, impl.OrderedMultiDict):
+        return type(m)([(k, rebuilt(v)) for k, v in m])
+    return m
+
+
+def shared_call(inst, edit):
+    m = shared_module(inst)
+    if edit:
+        for g in (m["g"], m["o"]["h"]):
+            first = g[0][0]
+            if len(g.getall(first)) > 1:
+                g.pop()                      # take the repeated keyword off again
+            else:
+                g.append(first, 99)          # a repeated keyword: no longer a valid PDS3 GROUP
+    got = outcome_encode(inst, lambda: m)
+    want = outcome_encode(make("encoder", _NAME_OF[type(inst)]), lambda: rebuilt(m))
+    return ("shared-same",) if got == want else ("shared-differs", got, want)
 
 
 def interfere():
@@ -268,9 +312,35 @@ def interfere():
     return ("ok", "interference")
 
 
+_NAME_OF = {impl.PVLEncoder: "PVL", impl.ODLEncoder: "ODL", impl.PDSLabelEncoder: "PDS3", impl.ISISEncoder: "ISIS"}
+
+
+class QLike:
+    """has .value and .units like a quantity, but is no class any encoder was told about"""
+    def __init__(self, value, units):
+        self.value, self.units = value, units
+
+    def __repr__(self):
+        return "QLike(%r, %r)" % (self.value, self.units)
+
+
 def do_call(kind, inst, i):
     if i == INTERFERE:
         return interfere()
+    if i == LOADS_FOREIGN:
+        import pvl
+        if isinstance(inst.grammar, impl.ODLGrammar):
+            og = impl.PVLGrammar()
+            od = impl.PVLDecoder(grammar=og)
+        else:
+            og = impl.ODLGrammar()
+            od = impl.ODLDecoder(grammar=og)
+        try:
+            return ("ok", canon(pvl.loads(TEXTS[0], parser=inst, grammar=og, decoder=od)))
+        except Exception as e:  # noqa: BLE001
+            return ("exc", type(e).__name__, _msg(e))
+    if i in (SHARED_DUMP, SHARED_EDIT):
+        return shared_call(inst, i == SHARED_EDIT)
     if kind == "parser":
         return outcome_parse(inst, TEXTS[i])
     if kind == "validate":
@@ -297,6 +367,8 @@ def do_call(kind, inst, i):
 
 
 def state_of(kind, inst):
+    if kind == "encoder" and inst in _SHARED:
+        return instance_state(inst) + "|shared:" + repr(canon(_SHARED[inst]))
     if kind == "validate":
         return repr([(k, instance_state(v)) for k, v in sorted(inst.items())])
     return instance_state(inst)
